@@ -93,6 +93,77 @@ pub extern "C" fn nf_w_store_a2() {
     merge();
 }
 
+/// C03, sharper: the same reader, recording what its second load returned; the final function then knows the
+/// whole write history (A: obj0, then obj1 by the reader and obj2 by the writer in either order) and can tell a
+/// stale hand-over from a legitimate late write: the second load started after the reader's own store(obj1)
+/// returned, so it may return obj2 only if the writer's swap came after that store - and then obj2 is what
+/// the container holds in the end.
+#[no_mangle]
+pub extern "C" fn nf_r_load_store_load_rec() {
+    let g = a().load();
+    idx_checked(&g, 33);
+    drop(g);
+    a().store(pool(1).clone());
+    let g = a().load();
+    let i = idx_checked(&g, 34);
+    vassert(i == 1 || i == 2, 35);
+    *CX_RES[0].mu() = i;
+    drop(g);
+}
+/// C13 (iii): the generation wrap with a concurrent writer helping at that moment. The reader's first helping
+/// transaction has generation 4; the hook then moves the thread's counter to the wrap, the next load retires the
+/// node and runs generation 0 on another node, and after the reader's own store the generation is 4 again. A
+/// writer that has been inside the old node since the first transaction must not be able to hand its long-gone
+/// replacement to the last load. Same oracle as `nf_r_load_store_load_rec`.
+#[no_mangle]
+pub extern "C" fn nf_r_wrap_rec() {
+    let g = a().load();
+    idx_checked(&g, 33);
+    drop(g);
+    set_generation(u64::MAX - 3);
+    let g = a().load();
+    idx_checked(&g, 36);
+    drop(g);
+    a().store(pool(1).clone());
+    let g = a().load();
+    let i = idx_checked(&g, 34);
+    vassert(i == 1 || i == 2, 35);
+    *CX_RES[0].mu() = i;
+    drop(g);
+}
+/// C11: thread churn against a helping writer. Thread 1 (new) loads - its first helping transaction, generation
+/// 4 -, stores obj1 and exits; thread 3 is started after thread 1 has finished (context-bounded runs only: spec
+/// key `after`) and loads - again a first transaction, generation 4. A writer that entered thread 1's node during
+/// the first transaction may still be inside when thread 3 looks for a node: the node must not serve thread 3's
+/// transaction while that writer can still complete the old one. Oracle as above (thread 3's load started after
+/// store(obj1) returned).
+#[no_mangle]
+pub extern "C" fn nf_r1_load_store_exit() {
+    let g = a().load();
+    idx_checked(&g, 33);
+    drop(g);
+    a().store(pool(1).clone());
+    thread_exit_self(1);
+}
+#[no_mangle]
+pub extern "C" fn nf_r3_load_rec() {
+    let g = a().load();
+    let i = idx_checked(&g, 34);
+    vassert(i == 1 || i == 2, 35);
+    *CX_RES[0].mu() = i;
+    drop(g);
+}
+#[no_mangle]
+pub extern "C" fn nf_final_lin() {
+    let second = *CX_RES[0].get();
+    let g = a().load();
+    let f = idx_checked(&g, 41);
+    drop(g);
+    vassert(f == 1 || f == 2, 44);
+    vassert(second != 2 || f == 2, 45);
+    nf_final();
+}
+
 /// final: counts exact, no debt slot occupied
 #[no_mangle]
 pub extern "C" fn nf_final() {
